@@ -129,6 +129,21 @@ func main() {
 		for _, u := range a.Undecided {
 			fmt.Println("UNDECIDED:", u)
 		}
+	case "seq":
+		p, err := load.Load(load.Options{})
+		if err != nil {
+			fmt.Println("load error:", err)
+			os.Exit(2)
+		}
+		r := report.New("DBG", "quick", "other", "/tmp")
+		c := &checks.Ctx{P: p, R: r, Tier: "quick"}
+		res := c.DebugSeq(os.Args[2], os.Args[3], os.Args[4], os.Args[5], len(os.Args) > 6)
+		for _, o := range res.Obls {
+			if !o.OK {
+				fmt.Printf("FAIL %s / %s @%s\n      ctx: %s\n      %s\n", o.Rule, res.A.Key(o), p.RelPos(o.Instr.Pos()), o.Ctx, strings.ReplaceAll(o.Detail, "\n", "\n      "))
+			}
+		}
+		fmt.Printf("obligations=%d undecided=%v wall=%.1fs\n", len(res.Obls), res.Undecided, res.Wall)
 	case "layout":
 		p, err := load.Load(load.Options{})
 		if err != nil {
